@@ -42,6 +42,7 @@ PLAIN = {
     RES + '::unwrap_or': ('R', 'unwrap_or'),             # Ok(v) -> v ; Err(_) -> arg
     OPT + '::cloned': ('O', 'cloned'),                   # Some(&v) -> Some(v.clone()) ; None -> None
     OPT + '::copied': ('O', 'copied'),                   # Some(&v) -> Some(*v) ; None -> None
+    OPT + '::zip': ('O', 'zip'),                         # (Some(a), Some(b)) -> Some((a, b)) ; otherwise None
 }
 VIDX = {'Ok': 0, 'Err': 1, 'None': 0, 'Some': 1}
 ADT = {'Ok': RES, 'Err': RES, 'Some': OPT, 'None': OPT}
@@ -102,7 +103,7 @@ def desugar(crate, body):
             continue
         if name in PLAIN:
             kind, how = PLAIN[name]
-            if len(t['args']) == (2 if how in ('ok_or', 'unwrap_or') else 1):
+            if len(t['args']) == (2 if how in ('ok_or', 'unwrap_or', 'zip') else 1):
                 plans.append((bi, name, kind, None, how))
             continue
         if name not in TABLE:
@@ -298,6 +299,18 @@ def desugar(crate, body):
                                         'dest': {'l': q, 'p': []}, 'dest_ty': '?', 'target': b_fin, 'unwind': unwind, 'at': at, 'at_root': t.get('at_root')}})
                 b_ok = len(blocks) - 1
                 b_no = finish([set_dest(_agg('None', []))])
+            elif how == 'zip':
+                subj2 = new_local(OPT + '<?>')
+                blk['stmts'].append(_assign(subj2, {'k': 'use', 'op': t['args'][1]}, at))
+                d2 = new_local('isize')
+                p2 = new_local()
+                tp = new_local('(?, ?)')
+                b_both = finish([take, _assign(p2, {'k': 'use', 'op': _payload(subj2, 'Some')}, at),
+                                 _assign(tp, {'k': 'agg', 'ak': 'tuple', 'ops': [_mv(p), _mv(p2)]}, at), set_dest(_agg('Some', [_mv(tp)]))])
+                b_no = finish([set_dest(_agg('None', []))])
+                b_no2 = finish([set_dest(_agg('None', []))])
+                b_ok = new_block([_assign(d2, {'k': 'discr', 'place': {'l': subj2, 'p': []}, 'ty': OPT + '<?>'}, at)],
+                                 {'k': 'switch', 'discr': _mv(d2), 'discr_ty': 'isize', 'targets': [['0', b_no2], ['1', b_both]], 'otherwise': unreach, 'at': at}, frame)
             elif how == 'err':
                 b_ok = finish([set_dest(_agg('None', []))])
                 b_no = finish([_assign(p, {'k': 'use', 'op': _payload(subj, 'Err')}, at), set_dest(_agg('Some', [_mv(p)]))])
